@@ -360,7 +360,7 @@ fn run_entries(t: &mut Trace, ids: &mut Vec<u64>) -> u64 {
     n
 }
 
-fn random_cell(rng: &mut Rng, res: i32) -> u64 {
+pub fn random_cell(rng: &mut Rng, res: i32) -> u64 {
     let face = rng.below(12) as u8;
     let seg = rng.below(5) as usize;
     let h = if res >= 2 { res - 1 } else { 0 };
